@@ -47,6 +47,47 @@ def check(tier, seed, replay=None):
                                "schema_def": s.def_bop(d) if not d.inline else d.name, "value": v})
         if n % 1013 == 0:
             run.sample({"option_set": wirerun.opt_label(o), "type": d.name, "value": v[:160], "size": G.get("size"), "marshal": G.get("m", "")[:80]})
+    # float-keyed maps holding a NaN key - an entry a Go map keeps but cannot look up, so an encoder that walks keys and fetches values back loses it:
+    # Size() and the three encoders on such values (encoders only: what the byte-path DECODER does with a NaN key is C01's known finding)
+    nanrecs = []
+    for d, tags in shapes:
+        if wiregen.has_float_key(("r", d)) and not any(d is x for x, _ in nanrecs):
+            nanrecs.append((d, tags))
+    if nanrecs and "1" in data["go"]:
+        rngn = SplitMix64(seed).fork("C02-nan")
+        ncases = []
+        for d, tags in nanrecs:
+            for _ in range(4 if tier == "thorough" else 2):
+                v = " ".join(wiregen.ValueGen(rngn, "rand", nan_keys=True).record(d))
+                ncases.append((d, tags, v))
+        sp = wirerun.write_model_schema(s, "c02n")
+        ml = wirerun.run_model(sp, ["ENC %d %s" % (d.id, wiregen.unparse(d, wiregen.strip_deprecated(d, wiregen.canon(v)))) for d, _, v in ncases])
+        os.remove(sp)
+        b = wirerun.build_package(s, 1, "cover")
+        gl = wirerun.run_go(b, ["V %s %s" % (d.name, v) for d, _, v in ncases])
+        for (d, tags, v), g, m in zip(ncases, gl, ml):
+            n += 1
+            run.nontrivial(("nan-key", d.name, v))
+            G, Mo = wirerun.parse_kv(g), wirerun.parse_kv(m)
+            bad = None
+            if "m" not in G or "e" not in G or "t" not in G or "size" not in G:
+                bad = "an encoder failed on a value with a NaN map key: " + g[:300]
+            else:
+                size = int(G["size"])
+                if wire.hexlen(G["m"]) != size or wire.hexlen(G["e"]) != size:
+                    bad = "with a NaN map key: Size() = %d, len(MarshalBebop) = %d, EncodeBebop wrote %d" % (size, wire.hexlen(G["m"]), wire.hexlen(G["e"]))
+                elif "mto-problems" in g and "returned" in g.split("mto-problems=[", 1)[1].split("]", 1)[0]:
+                    bad = "with a NaN map key: MarshalBebopTo: " + g.split("mto-problems=[", 1)[1].split("]", 1)[0][:300]
+                elif str(size) != Mo.get("size"):
+                    bad = "with a NaN map key: Size() = %d but the model's size is %s" % (size, Mo.get("size"))
+                elif not wiregen.has_multimap(wiregen.canon(v)) and not (G["m"] == G["e"] == G["t"] == Mo.get("enc", G["m"])):
+                    bad = "with a NaN map key the encoders disagree (or differ from the reference): marshal=%s marshal_to=%s encode=%s model=%s" % (G["m"][:100], G["t"][:100], G["e"][:100], Mo.get("enc", "")[:100])
+        # (no `found` on decode-side oddities: only the encoder observables above)
+            if bad:
+                found = True
+                if len(run.violations) < 4:
+                    run.violation({"what": bad, "type": d.name, "schema_def": s.def_bop(d) if not d.inline else d.name, "value": v})
+        run.notes["nan_key_encoder_cases"] = len(ncases)
     # the dirty-buffer frame against the model: MarshalBebopTo into a buffer with prior contents, result buffer and n compared byte for byte
     if "1" in data["go"]:
         rng = SplitMix64(seed).fork("C02-mto")
